@@ -1,5 +1,5 @@
 """C07: attribute values decode to the right type, value, sign and constant domain."""
-import os, sys, json, random, subprocess, binascii, re
+import collections, os, sys, json, random, subprocess, binascii, re
 import common, tlc, zw, dwarfchk as D
 sys.path.insert(0, os.path.join(common.VERIF, "gen"))
 import dwarfgen
@@ -111,7 +111,9 @@ def run(tier):
     r = tlc.run_tlc("AtValGen", constants={"OutFile": out}, workers=1, timeout=900)
     if not r.ok or not os.path.exists(out):
         raise common.ToolError("AtValGen failed\n" + r.out[-2000:])
-    descs = [json.loads(l) for l in open(out) if l.strip()]
+    allrecs_ = [json.loads(l) for l in open(out) if l.strip()]
+    descs = [x for x in allrecs_ if "d" in x]
+    enumattrs = [x for x in allrecs_ if "enumattr" in x]
     m = re.search(r'"ATVAL",\s*(\d+),\s*(\d+)', r.out.replace("\n", " "))
     if m and int(m.group(2)) > 0:
         bad = [x for x in descs if x["documented"] != "any" and x["code"] != x["documented"]]
@@ -189,7 +191,7 @@ def run(tier):
              ("lowpc", 0x11, "addr", 0xfffffffffffffff0, ("cst", 0xfffffffffffffff0, "addr")),
              ("lang", 0x13, "data1", 0x0c, ("named", "DW_LANG_C99")), ("lang2", 0x13, "data2", 0x8001, ("named", "DW_LANG_Mips_Assembler")),
              ("enc", 0x3e, "data1", 0x07, ("named", "DW_ATE_unsigned")), ("acc", 0x32, "data1", 2, ("named", "DW_ACCESS_protected")),
-             ("inl", 0x20, "udata", 3, ("cst", 3, "dec")), ("inl2", 0x20, "data1", 3, ("named", "DW_INL_declared_inlined")),
+             ("inl", 0x20, "udata", 3, ("named", "DW_INL_declared_inlined")), ("inl2", 0x20, "data1", 3, ("named", "DW_INL_declared_inlined")),
              ("line", 0x3b, "data2", 65535, ("cst", 65535, None)), ("bytesz", 0x0b, "data4", 0x80000000, ("cst", 0x80000000, "dec")),
              ("upper", 0x2f, "sdata", -7, ("cst", -7, "dec")), ("stmt", 0x10, "sec_offset", 0, ("cst", 0, "hexish")),
              ("ref", 0x49, "ref4", 1, ("die", 1)), ("refu", 0x49, "ref_udata", 1, ("die", 1)), ("refa", 0x49, "ref_addr", 1, ("die", 1)),
@@ -222,6 +224,40 @@ def run(tier):
                 vd.observe("attribute %s (%s) decodes wrongly" % (nm, form), {"expected": str(exp), "observed": g})
             else:
                 nontriv += 1
+    # enumerated attributes: the whole table of tla/AtVal.tla (EnumAttrs) x every enumerator of the family in
+    # <dwarf.h> x the constant forms
+    sys.path.insert(0, os.path.join(common.VERIF, "gen"))
+    import headers
+    H = dict(headers.dwarf_constants())
+    ekids, eexp = [], {}
+    for ea in enumattrs:
+        fam = ea["enumattr"]["family"]
+        byval = collections.defaultdict(list)
+        for n, v in H.items():
+            if n.startswith(fam) and not n.endswith(("_lo_user", "_hi_user")):
+                byval[v].append(n)
+        for v, names in sorted(byval.items()):
+            for form in ea["forms"]:
+                if form == "data1" and v > 0xff:
+                    continue
+                i = 5000 + len(ekids)
+                ekids.append({"id": i, "tag": 0x34, "children": [], "attrs": [{"name": ea["enumattr"]["code"], "form": form, "value": v}]})
+                eexp[i] = (ea["enumattr"]["at"], form, v, names)
+    f3 = {"units": [{"kind": "cu", "version": 4, "table": 0, "root": {"id": 1, "tag": 0x11, "children": ekids, "attrs": []}}]}
+    o3, offs3, _ = dwarfgen.build(f3, wd, "c07e")
+    b3 = D.Built(o3, offs3)
+    r3 = D.run_queries(drv, [(o3, "entry (offset != 0xb) [offset, [attribute value]]", False)], wd, "c07e")[0]
+    if not r3 or r3.get("status") != "ok":
+        vd.observe("enumerated attribute query failed", {"observed": r3})
+    else:
+        gote = {b3.rev.get(D.cst(x[-1]["v"][0]), -1): x[-1]["v"][1]["v"] for x in r3["results"]}
+        for i, (at, form, v, names) in sorted(eexp.items()):
+            vd.cov["evaluations"] += 1
+            g = gote.get(i)
+            if g is None or len(g) != 1 or g[0]["t"] != "cst" or int(g[0]["v"]) != v or g[0]["show"] not in names:
+                vd.observe("enumerated attribute DW_AT_%s = %d (%s) is not shown as %s" % (at, v, form, "/".join(names)), {"observed": g})
+            else:
+                nontriv += 1
     vd.cov["distinct_nontrivial"] = nontriv
     vd.cov["traces_validated_against_impl"] = nontriv
     vd.sample({"descriptor": use[0]["d"], "documented": use[0]["documented"]})
@@ -231,7 +267,8 @@ def run(tier):
                      "all ones): TLC checks that the transcribed code never contradicts the documented rule (%d descriptors); one DIE "
                      "group per descriptor is generated and `@AT_const_value` / `attribute value` compared on value, sign and domain; "
                      "plus %d attributes of the other classes (strings incl. high bytes and .debug_str, flags, addresses, "
-                     "enumerated attributes, references in three forms, sec_offset)" % (len(descs), len(specs)),
+                     "enumerated attributes, references in three forms, sec_offset); every enumerated attribute of AtVal!EnumAttrs "
+                     "with every enumerator of its family from <dwarf.h> in three constant forms (%d DIEs)" % (len(descs), len(specs), len(eexp)),
                      exhaustive=(tier == "thorough"))
 
 def replay(path):
